@@ -1448,6 +1448,18 @@ pub fn run_c14(ctx: &Ctx) -> i32 {
                         return Err(format!("step {step}: byte fill ({bytes} bytes/sample) of {len} samples exposes a buffer that differs from the input"));
                     }
                 }
+                // a context of 25..32-bit samples takes 4-byte containers: the same two-path
+                // comparison at the widest container (all channel counts)
+                if bytes == 4 {
+                    let wide = 25 + (idx as usize / 160) % 8;
+                    let mut wi = Context::new(wide, channels);
+                    let mut wb = Context::new(wide, channels);
+                    wi.fill_interleaved(&data).map_err(|e| format!("{e}"))?;
+                    wb.fill_le_bytes(&by, 4).map_err(|e| format!("{e}"))?;
+                    if wi.md5_digest() != wb.md5_digest() || wi.total_samples() != wb.total_samples() {
+                        return Err(format!("step {step}: a {wide}-bit Context ({channels} channels, 4-byte containers) diverges between integer and byte fill (md5 {:02x?} vs {:02x?}, total {} vs {})", &wi.md5_digest()[..4], &wb.md5_digest()[..4], wi.total_samples(), wb.total_samples()));
+                    }
+                }
                 // context: only when bytes == ceil(bps/8) are the two hash inputs meant to agree
                 if bytes == (bps + 7) / 8 {
                     ctx_i.fill_interleaved(&data).map_err(|e| format!("{e}"))?;
@@ -1502,7 +1514,12 @@ pub fn run_c14(ctx: &Ctx) -> i32 {
                 _ => rng.usize_below(cur + 1),
             });
         }
-        let desc = json!({"channels": channels, "bps": bps, "capacity": cap, "fill_lengths": lens, "resize_before_fill": resizes});
+        // a full block plus 1..channels-1 stray values: longer than the buffer by LESS than one
+        // inter-channel sample (a capacity check on per-channel counts rounds that away)
+        let strays: Vec<usize> = lens.iter().enumerate().map(|(i, l)| if channels > 1 && i > 0 && *l >= 32 && rng.chance(1, 3) { 1 + rng.usize_below(channels - 1) } else { 0 }).collect();
+        let mut cur2 = cap;
+        let lens: Vec<usize> = lens.iter().enumerate().map(|(i, l)| { if let Some(r) = resizes[i] { cur2 = r; } if strays[i] > 0 { cur2 } else { *l } }).collect();
+        let desc = json!({"channels": channels, "bps": bps, "capacity": cap, "fill_lengths": lens, "resize_before_fill": resizes, "stray_values_after_a_full_block": strays});
         let r = catch(|| -> Result<(u64, u64), String> {
             let mut ti = (FrameBuf::with_size(channels, cap).map_err(|e| format!("{e}"))?, Context::new(bps, channels));
             let mut tb = (FrameBuf::with_size(channels, cap).map_err(|e| format!("{e}"))?, Context::new(bps, channels));
@@ -1519,13 +1536,28 @@ pub fn run_c14(ctx: &Ctx) -> i32 {
                     // the next accepted fill (a stale count is outside this property)
                     viewable = false;
                 }
-                let data: Vec<i32> = (0..len * channels).map(|_| match rng.usize_below(5) { 0 => lo as i32, 1 => hi as i32, _ => rng.range(lo, hi) as i32 }).collect();
+                let data: Vec<i32> = (0..len * channels + strays[step]).map(|_| match rng.usize_below(5) { 0 => lo as i32, 1 => hi as i32, _ => rng.range(lo, hi) as i32 }).collect();
                 let off = (idx as usize + data.len()) % 4;
                 let mut by_store = vec![0xEEu8; off];
                 by_store.extend_from_slice(&gen::to_le_bytes(&data, bytes));
                 let by = &by_store[off..];
                 let ri = ti.fill_interleaved(&data);
                 let rb = tb.fill_le_bytes(&by, bytes);
+                if strays[step] > 0 {
+                    // (an offer that is not a whole number of inter-channel samples: the two paths
+                    // must treat it alike - what they do with it is not this property's business)
+                    if ri.is_ok() != rb.is_ok() {
+                        return Err(format!("step {step}: a full block of {len} samples plus {} stray value(s): integer fill {} but byte fill {}", strays[step], if ri.is_ok() { "accepted" } else { "refused" }, if rb.is_ok() { "accepted" } else { "refused" }));
+                    }
+                    if ri.is_ok() {
+                        viewable = false;
+                        expect_total = ti.1.total_samples();
+                        accepted += 1;
+                    } else {
+                        refused += 1;
+                    }
+                    continue;
+                }
                 if ri.is_ok() != rb.is_ok() {
                     return Err(format!("step {step} (len {len}): integer fill {} but byte fill {}", if ri.is_ok() { "accepted" } else { "refused" }, if rb.is_ok() { "accepted" } else { "refused" }));
                 }
